@@ -6,7 +6,7 @@ import json, subprocess
 
 BUILT = ["C%02d" % i for i in range(1, 19)]
 
-HOOK_COMMITS = ["d149e00", "3dfec6e"]
+HOOK_COMMITS = ["d149e00", "3dfec6e", "79c79ea"]
 
 P = {
  "C01": dict(level="exploration", design="DESIGN.md §5 C01",
